@@ -16,7 +16,6 @@ RENAMES = {
     'to_be_bytes': 'shim_to_be_bytes', 'to_le_bytes': 'shim_to_le_bytes', 'to_ne_bytes': 'shim_to_ne_bytes',
     'from_be_bytes': 'shim_from_be_bytes', 'from_le_bytes': 'shim_from_le_bytes',
     'from_ne_bytes': 'shim_from_ne_bytes',
-    'chunks_exact_mut': 'shim_chunks_exact_mut',
 }
 # renames that apply only when the previous tokens are `<int type> ::`
 INT_ASSOC = {'from_be_bytes', 'from_le_bytes', 'from_ne_bytes'}
@@ -287,6 +286,12 @@ def transform(toks, it, hoist_names=None, hoist_suffix=None, is_member=False, re
         raise InfraError('enum %s with variants is outside the supported subset' % it.name)
 
     if it.kind in ('const', 'type', 'use', 'static'):
+        if not is_member and it.kind in ('const', 'type'):
+            res.dropped.append(('vis', ''.join(t.text for t in toks[it.vis[0]:it.vis[1]])))
+            out.append(mk('ident', 'pub', strip_comments(first_ws)))
+            for q in range(it.vis[1], it.hi):
+                emit(toks[q])
+            return res
         t0 = clone_tok(toks[start])
         t0.ws = strip_comments(first_ws)
         out.append(t0)
@@ -636,8 +641,9 @@ def gen_mod(mod, sources):
         if p.kind in ('impl', 'trait'):
             for q in range(p.lo, p.body[0] + 1):
                 em.tok(toks[q])
-            if sel.members:
-                em.add('\n' + sel.members.strip('\n') + '\n')
+            members = sel.members(toks, p) if callable(sel.members) else sel.members
+            if members:
+                em.add('\n' + members.strip('\n') + '\n')
             seen = set()
             for m in p.members:
                 if m.kind == 'fn':
